@@ -170,7 +170,7 @@ class Gen:
                         if letters[p] not in 'fb':
                             ok = False
                             break
-                        c += 1.0 if letters[p] == 'b' else 0.1
+                        c += 1.2 if letters[p] == 'b' else 0.6
                     if ok:
                         slots[p] = combo
                         cost += c + 0.05
@@ -240,7 +240,7 @@ HEADX = ('-- GENERATED by harness/lib/datefrontcert.py %(cul)s (committed; regen
          'open RTV.DateFront RTV.Gen.DateRegex%(suf)s RTV.Gen.DateLayouts%(suf)s\n\n')
 
 
-ACC_SPLIT = 260     # abstract texts per acceptance theorem (other cultures; about 0.2 s of kernel time each)
+ACC_SPLIT = 130     # abstract texts per acceptance theorem (other cultures; about 0.2-0.4 s of kernel time each)
 
 
 def lean_str(s):
